@@ -128,9 +128,49 @@ fn extract_and_compare(rt: &tokio::runtime::Runtime, dir: &Path, g: &Geo, t: &To
     None
 }
 
+/// Realistic piece sizes: total = 2p + 5, files = the segments between every choice of at most
+/// `max_cuts` cut points from a set of offsets around the piece boundaries, the 8 KiB mark (buffer
+/// size of a buffered reader) and a few interior points.
+pub fn large_geometries(ps: &[usize], max_cuts: usize) -> Vec<Geo> {
+    let mut out = vec![];
+    for &p in ps {
+        let total = 2 * p + 5;
+        let mut marks: Vec<usize> = vec![1, 1000, 8191, 8192, 8193, 12000, p - 1, p, p + 1, p + 1000, p + 8192, p + 8193, 2 * p, 2 * p + 4];
+        marks.retain(|m| *m > 0 && *m < total);
+        marks.sort();
+        marks.dedup();
+        let n = marks.len();
+        let mut cuts_sets: Vec<Vec<usize>> = vec![vec![]];
+        for a in 0..n {
+            cuts_sets.push(vec![marks[a]]);
+            for b in (a + 1)..n {
+                if max_cuts >= 2 {
+                    cuts_sets.push(vec![marks[a], marks[b]]);
+                }
+                for c in (b + 1)..n {
+                    if max_cuts >= 3 {
+                        cuts_sets.push(vec![marks[a], marks[b], marks[c]]);
+                    }
+                }
+            }
+        }
+        for cuts in cuts_sets {
+            let mut files = vec![];
+            let mut prev = 0;
+            for c in cuts.iter().chain(std::iter::once(&total)) {
+                files.push(c - prev);
+                prev = *c;
+            }
+            out.push(Geo { p, files, single: false });
+        }
+    }
+    out
+}
+
 pub fn run(ctx: &Ctx) -> Outcome {
     let ps: Vec<usize> = ctx.tier.pick(vec![1, 2, 3, 4, 5], vec![1, 2, 3, 4, 5, 6, 7, 8, 9, 10, 12, 16]);
-    let geos = geometries(&ps, ctx.tier.pick(3, 4));
+    let mut geos = geometries(&ps, ctx.tier.pick(3, 4));
+    geos.extend(large_geometries(&ctx.tier.pick(vec![16384usize], vec![8192usize, 8193, 16384, 20000, 65536]), ctx.tier.pick(2, 3)));
     let res = core::par_map(
         &geos,
         |w| {
@@ -160,7 +200,7 @@ pub fn run(ctx: &Ctx) -> Outcome {
     let mut o = Outcome::new("exploration");
     o.set("evaluations", json!(geos.len()));
     o.set("distinct_nontrivial", json!(multi_in_piece));
-    o.set("rule", json!(format!("every piece length p in {:?} x every list of 1..={} file lengths each in 0..=2p+1 with total <= 3p+2 (single-file form and files-list form for one file); each geometry extracted twice: into an empty directory and over pre-existing longer output files; all geometries distinct; non-trivial = at least one file starts strictly inside a piece", ps, ctx.tier.pick(3, 4))));
+    o.set("rule", json!(format!("every piece length p in {:?} x every list of 1..={} file lengths each in 0..=2p+1 with total <= 3p+2 (single-file form and files-list form for one file); plus realistic piece sizes (16384; thorough also 8192, 8193, 20000, 65536): total 2p+5, files = segments between every choice of <= 2 (thorough 3) cut points from the offsets {{1, 1000, 8191, 8192, 8193, 12000, p-1, p, p+1, p+1000, p+8192, p+8193, 2p, 2p+4}}; each geometry extracted twice: into an empty directory and over pre-existing longer output files; all geometries distinct; non-trivial = at least one file starts strictly inside a piece", ps, ctx.tier.pick(3, 4))));
     let picks = ctx.seeded_pick(geos.len(), 5);
     o.set("samples", Value::Array(picks.iter().map(|i| json!({"p": geos[*i].p, "files": geos[*i].files, "single": geos[*i].single})).collect()));
     o.set("exhaustive", json!(true));
